@@ -337,7 +337,7 @@ func (g *gen) size() int {
 }
 func (g *gen) comp() enc.Component {
 	t := compTypes[g.r.Intn(len(compTypes))]
-	if t == 2 { // ParametersSha256Digest is managed by the API; user input may carry one only in last position (see name())
+	if t == 2 { // ParametersSha256Digest is managed by the API; placed deliberately by name()
 		t = 8
 	}
 	return enc.Component{Typ: enc.TLNum(t), Val: g.rbytes(g.size())}
@@ -356,6 +356,13 @@ func (g *gen) name() enc.Name {
 	}
 	if n > 0 && g.r.Intn(12) == 0 { // a stale digest component in last position: MakeInterest must strip / replace it
 		nm[n-1] = enc.Component{Typ: enc.TypeParametersSha256DigestComponent, Val: g.rbytes(32)}
+	}
+	if n > 1 && g.r.Intn(15) == 0 { // a digest-typed component elsewhere: MakeInterest without parameters must refuse it
+		v := g.rbytes(32)
+		if g.r.Intn(3) == 0 {
+			v = g.rbytes(g.r.Intn(9))
+		}
+		nm[g.r.Intn(n-1)] = enc.Component{Typ: enc.TypeParametersSha256DigestComponent, Val: v}
 	}
 	return nm
 }
@@ -964,6 +971,13 @@ func (t *tracer) intCase(g *gen, id int) {
 		cfg.HopLimit = &v
 	}
 	app := g.wire()
+	if id%24 == 7 { // directed: a digest-typed component inside a name that gets no parameters (MakeInterest refuses it)
+		app = nil
+		nm = enc.Name{g.comp(), enc.Component{Typ: enc.TypeParametersSha256DigestComponent, Val: g.rbytes(32)}, g.comp()}
+		if g.r.Intn(2) == 0 {
+			nm = append(nm, g.comp())
+		}
+	}
 	sk := g.signer(true)
 	if app == nil && g.r.Intn(3) != 0 {
 		sk = &signerKind{kind: "none"}
